@@ -36,18 +36,19 @@ def apiWrite (m : MapObj) (md : List (String × String)) : FileObj :=
   { covord := m.covord, spord := m.spord, arrDT := arr, sentinel := m.sent, primary := pr, fields := fields,
     wwidth := ww, bitpack := bp, mdata := md, file := writeFits m.st }
 
-/-- kind recovery on read: BITPACK → packed; boolean SENTINEL → `astype(bool)`;
-    WIDEMASK → reshape to rows of WWIDTH bytes; table → record array; else the array dtype -/
+/-- kind recovery on read: BITPACK → packed; a table → record array (whatever the type of
+    its primary field — after the `fix:` commit the reader no longer takes the boolean
+    branch for a record array whose primary field is boolean); boolean SENTINEL →
+    `astype(bool)`; WIDEMASK → reshape to rows of WWIDTH bytes; else the array dtype -/
 def fileKind (f : FileObj) : Option Kind :=
   if f.bitpack then some .packed
+  else if f.arrDT == "rec" then f.primary.map fun p => .recd f.fields p
   else match f.sentinel with
     | .bool _ => some (.plain .bool)
     | _ =>
       match f.wwidth with
       | some w => some (.wide w)
-      | none =>
-        if f.arrDT == "rec" then f.primary.map fun p => .recd f.fields p
-        else (parseDTCode f.arrDT).map .plain
+      | none => (parseDTCode f.arrDT).map .plain
 
 /-- `HealSparseMap.read(file, pixels=…)` -/
 def apiRead (f : FileObj) (pixels : Option (List Nat)) : Except Err MapObj := do
